@@ -277,7 +277,20 @@ fn persistence_case(ctx: &mut Ctx, case: u64, rng: &mut Rng, scratch: &Scratch) 
                 // another operation on the document that is not about its policy: a capability
                 // import (same, upgrade, or read after write), a peer registration, open and close
                 let d = rng.below(2);
-                match rng.below(3) {
+                match rng.below(4) {
+                    3 => {
+                        // the document is removed and imported again (added after seeded change
+                        // agent-C15-7): the new document is one for which no policy was ever set, on
+                        // this store instance and after every later reopen
+                        store.close_replica(docs[d].id());
+                        if store.remove_replica(&docs[d].id()).is_ok() {
+                            let cap = if rng.chance(1, 2) { Capability::Write(docs[d].clone()) } else { Capability::Read(docs[d].id()) };
+                            store.import_namespace(cap).unwrap();
+                            model[d] = DownloadPolicy::default();
+                            trace.push(format!("doc{d} removed and imported again"));
+                            ctx.count("documents_removed_and_imported_again", 1);
+                        }
+                    }
                     0 => {
                         let write = rng.chance(2, 3);
                         let cap = if write { Capability::Write(docs[d].clone()) } else { Capability::Read(docs[d].id()) };
